@@ -27,7 +27,7 @@ impl GraphIndex {
 
     pub fn as_u64(&self) -> u64 {
         if self.is_edge() {
-            (-self.0) as u64
+            self.0.unsigned_abs()
         } else {
             self.0 as u64
         }
@@ -550,11 +550,11 @@ where
     }
 
     pub fn edge_from(&self, storage: &Storage<D>, index: GraphIndex) -> GraphIndex {
-        GraphIndex::from(-self.data.from(storage, index).unwrap_or_default())
+        GraphIndex::from(self.data.from(storage, index).unwrap_or_default().wrapping_neg())
     }
 
     pub fn edge_to(&self, storage: &Storage<D>, index: GraphIndex) -> GraphIndex {
-        GraphIndex::from(-self.data.to(storage, index).unwrap_or_default())
+        GraphIndex::from(self.data.to(storage, index).unwrap_or_default().wrapping_neg())
     }
 
     pub fn first_edge_from(
@@ -562,7 +562,7 @@ where
         storage: &Storage<D>,
         index: GraphIndex,
     ) -> Result<GraphIndex, DbError> {
-        Ok(GraphIndex::from(-self.data.from(storage, index)?))
+        Ok(GraphIndex::from(self.data.from(storage, index)?.wrapping_neg()))
     }
 
     pub fn first_edge_to(
@@ -570,7 +570,7 @@ where
         storage: &Storage<D>,
         index: GraphIndex,
     ) -> Result<GraphIndex, DbError> {
-        Ok(GraphIndex::from(-self.data.to(storage, index)?))
+        Ok(GraphIndex::from(self.data.to(storage, index)?.wrapping_neg()))
     }
 
     pub fn insert_edge(
@@ -738,7 +738,7 @@ where
         storage: &Storage<D>,
         index: GraphIndex,
     ) -> Result<GraphIndex, DbError> {
-        Ok(GraphIndex::from(-self.data.from_meta(storage, index)?))
+        Ok(GraphIndex::from(self.data.from_meta(storage, index)?.wrapping_neg()))
     }
 
     pub(crate) fn next_edge_to(
@@ -746,7 +746,7 @@ where
         storage: &Storage<D>,
         index: GraphIndex,
     ) -> Result<GraphIndex, DbError> {
-        Ok(GraphIndex::from(-self.data.to_meta(storage, index)?))
+        Ok(GraphIndex::from(self.data.to_meta(storage, index)?.wrapping_neg()))
     }
 
     fn edge_count_from(&self, storage: &Storage<D>, index: GraphIndex) -> Result<i64, DbError> {
@@ -797,8 +797,8 @@ where
         storage: &mut Storage<D>,
         index: GraphIndex,
     ) -> Result<(), DbError> {
-        let node_index = GraphIndex::from(-self.data.from(storage, index)?);
-        let first_index = GraphIndex::from(-self.data.from(storage, node_index)?);
+        let node_index = GraphIndex::from(self.data.from(storage, index)?.wrapping_neg());
+        let first_index = GraphIndex::from(self.data.from(storage, node_index)?.wrapping_neg());
         let next = self.data.from_meta(storage, index)?;
 
         if first_index == index {
@@ -822,12 +822,12 @@ where
         storage: &mut Storage<D>,
         index: GraphIndex,
     ) -> Result<(), DbError> {
-        let mut edge = GraphIndex::from(-self.data.from(storage, index)?);
+        let mut edge = GraphIndex::from(self.data.from(storage, index)?.wrapping_neg());
 
         while edge.is_valid() {
             self.remove_to_edge(storage, edge)?;
             let current_index = -edge.0;
-            edge = GraphIndex::from(-self.data.from_meta(storage, edge)?);
+            edge = GraphIndex::from(self.data.from_meta(storage, edge)?.wrapping_neg());
             self.free_index(storage, GraphIndex::from(current_index))?;
         }
 
@@ -839,8 +839,8 @@ where
         storage: &mut Storage<D>,
         index: GraphIndex,
     ) -> Result<(), DbError> {
-        let node_index = GraphIndex::from(-self.data.to(storage, index)?);
-        let first_index = GraphIndex::from(-self.data.to(storage, node_index)?);
+        let node_index = GraphIndex::from(self.data.to(storage, index)?.wrapping_neg());
+        let first_index = GraphIndex::from(self.data.to(storage, node_index)?.wrapping_neg());
         let next = self.data.to_meta(storage, index)?;
 
         if first_index == index {
@@ -864,12 +864,12 @@ where
         storage: &mut Storage<D>,
         index: GraphIndex,
     ) -> Result<(), DbError> {
-        let mut edge_index = GraphIndex::from(-self.data.to(storage, index)?);
+        let mut edge_index = GraphIndex::from(self.data.to(storage, index)?.wrapping_neg());
 
         while edge_index.is_valid() {
             self.remove_from_edge(storage, edge_index)?;
             let current_index = -edge_index.0;
-            edge_index = GraphIndex::from(-self.data.to_meta(storage, edge_index)?);
+            edge_index = GraphIndex::from(self.data.to_meta(storage, edge_index)?.wrapping_neg());
             self.free_index(storage, GraphIndex::from(current_index))?;
         }
 
